@@ -20,6 +20,7 @@ EXPLANATION = (
     'every want line is appended exactly once and only under the `want` option, the want block follows the source block, and format_src joins '
     'the parts in order. That re-parsing the formatted text yields the same doctest is not decided.'
     " R2/R2b also for want rows built by a comprehension. R5 optional formatting arguments are merged with the configuration by `is None` (getvalue), never by truthiness. R6 where _complete_source inserts a continuation prompt into the stored line it inserts it into the labeller's view too.")
+RUN_Q = 'xdoctest.doctest_example.DocTest.run'
 DECIDES = ['AFFINE numbering of displayed lines', 'PATH-COUNT emission of source and want lines']
 NOT_DECIDED = ['re-parse round trip of the formatted text', 'colouring / number width']
 
@@ -29,7 +30,7 @@ ALN = 'xdoctest.utils.util_str.add_line_numbers'
 
 
 def run(ctx):
-    for fn in (r1_numbering, r2_lines_once, r2b_want_text_unmodified, r3_formatting_is_read_only, r4_file_relative_start, r5_explicit_options_win, r6_continuation_prompt_pairing, r7_formatting_options_are_forwarded):
+    for fn in (r1_numbering, r2_lines_once, r2b_want_text_unmodified, r3_formatting_is_read_only, r4_file_relative_start, r5_explicit_options_win, r6_continuation_prompt_pairing, r7_formatting_options_are_forwarded, r8_parts_exist_before_they_are_formatted):
         ctx.rep.rule(fn, ctx)
 
 
@@ -389,6 +390,21 @@ def r5_explicit_options_win(ctx):
         for c in gets:
             rep.ob('C18.R5', ctx.loc(f, c), ctx.src(c, 70), True, 'merged by `is None` (getvalue)', nontrivial=False, anchor=q)
     rep.floor('C18.R5', 'option merges through getvalue in the formatting / run functions', n, 3)
+    # every optional argument of format_parts that names a configuration key is merged with it (an unmerged None would silently mean "off")
+    fp = ctx.func('xdoctest.doctest_example.DocTest.format_parts')
+    fc = ctx.func('xdoctest.doctest_example.DoctestConfig.__init__')
+    keys = {k.value for x in ast.walk(fc.node) if isinstance(x, ast.Dict) for k in x.keys if isinstance(k, ast.Constant) and isinstance(k.value, str)}
+    a = fp.node.args
+    dflt = dict(zip([x.arg for x in a.args[len(a.args) - len(a.defaults):]], a.defaults))
+    for pname, d in sorted(dflt.items()):
+        if isinstance(d, ast.Constant) and d.value is None and pname in keys:
+            merged = [c for c in ast.walk(fp.node) if isinstance(c, ast.Call) and isinstance(c.func, ast.Attribute) and c.func.attr == 'getvalue' and len(c.args) == 2
+                      and isinstance(c.args[0], ast.Constant) and c.args[0].value == pname and is_name(c.args[1], pname)]
+            stored = [x for x in ast.walk(fp.node) if isinstance(x, ast.Assign) and any(is_name(t, pname) for t in x.targets) and any(c is x.value for c in merged)]
+            rep.ob('C18.R5', ctx.loc(fp, fp.node), "format_parts: %s = config.getvalue('%s', %s)" % (pname, pname, pname), bool(stored),
+                   'the configured value applies when the caller passes None' if stored else
+                   'the optional argument `%s` is never merged with config[%r]: left at None it means "off", so a configured %s (e.g. --offset) has no effect on the displayed text' % (pname, pname, pname),
+                   anchor=fp.qualname)
 
 
 def r6_continuation_prompt_pairing(ctx):
@@ -467,6 +483,26 @@ def r7_formatting_options_are_forwarded(ctx):
     rep.floor('C18.R7', 'formatting options shared along the chain', n, 6)
 
 
+def r8_parts_exist_before_they_are_formatted(ctx):
+    """MUST-PASS: the parts of a doctest are created lazily by `_parse()`.  A function that walks `self._parts` to display (or run) them calls
+    `self._parse()` first on every path -- formatting an unparsed doctest would silently show nothing"""
+    rep = ctx.rep
+    n = 0
+    for q in ('xdoctest.doctest_example.DocTest.format_parts', RUN_Q):
+        f = ctx.func(q)
+        g = ctx.cfg(f)
+        recv = f.node.args.args[0].arg
+        loops = [x for x in g.nodes if x.kind == 'for' and not x.dup and any(isinstance(y, ast.Attribute) and y.attr == '_parts' and is_name(y.value, recv) for y in ast.walk(x.ast.iter))]
+        parses = [x for x in g.nodes if not x.dup for c in node_calls(x) if isinstance(c.func, ast.Attribute) and c.func.attr == '_parse' and is_name(c.func.value, recv)]
+        for lp in loops:
+            n += 1
+            wit = graph.must_pass([g.entry], lambda x: x is lp, through=parses, efilter=graph.normal_only)
+            rep.ob('C18.R8', ctx.loc(f, lp.ast), '%s: self._parse() before the loop over self._parts' % f.name, wit is None,
+                   'the parts exist when they are walked' if wit is None else
+                   'the loop over self._parts can be reached without self._parse(): for a doctest that was not parsed yet nothing is displayed / run', anchor=q)
+    rep.floor('C18.R8', 'loops over self._parts in format_parts and run', n, 2)
+
+
 # ---------------------------------------------------------------------------
 from ..selftest import fire, silent      # noqa: E402
 
@@ -474,6 +510,8 @@ DE = 'xdoctest/doctest_example.py'
 DP = 'xdoctest/doctest_part.py'
 US = 'xdoctest/utils/util_str.py'
 VARIANTS = [
+    fire('format-before-parse', 'C18.R8', (DE, "        self._parse()\n        colored = self.config.getvalue('colored', colored)\n", "        colored = self.config.getvalue('colored', colored)\n")),
+    fire('configured-offset-never-merged', 'C18.R5', (DE, "        offset_linenos = self.config.getvalue('offset_linenos', offset_linenos)\n", "        pass\n")),
     fire('prefix-option-not-forwarded', 'C18.R7', (DE, "                                         n_digits=n_digits, prefix=prefix,\n", "                                         n_digits=n_digits,\n")),
     fire('triple-quote-completion-switched-off', 'C18.R6', ('xdoctest/parser.py', "HACK_TRIPLE_QUOTE_FIX = True", "HACK_TRIPLE_QUOTE_FIX = False")),
     fire('triple-quote-line-still-rejected', 'C18.R6', ('xdoctest/parser.py', "                        suffix = norm_line\n                        error = False\n", "                        suffix = norm_line\n")),
